@@ -187,3 +187,138 @@ func checkReentrant(r *core.Report, rule string, root *core.Func, what string) {
 		}
 	}
 }
+
+// checkNoEscapingFieldAlias decides that no byte slice that aliases a buffer kept in a field of the shared type leaves
+// an exported function or a closure of the package: such a slice would be overwritten by the next user of the buffer
+// while the first caller still reads it. Unexported helpers may return such aliases (their callers' locals become
+// aliases in turn); copies (any call that is not itself alias-returning, e.g. clone/append([]byte(nil), ...)) are fresh.
+func checkNoEscapingFieldAlias(r *core.Report, rule, pkgShort, typeName string) {
+	p := r.Prog
+	fns := p.FuncsInPkg(pkgShort)
+	var all []*core.Func
+	for _, f := range fns {
+		if f.Body == nil || strings.HasSuffix(p.FileOf(f.Pos()), "_test.go") {
+			continue
+		}
+		all = append(all, f.AllWithLits()...)
+	}
+	isSharedT := func(t types.Type) bool {
+		if pt, ok := t.(*types.Pointer); ok {
+			t = pt.Elem()
+		}
+		n, ok := t.(*types.Named)
+		return ok && n.Obj().Name() == typeName && core.ShortPkg(n.Obj().Pkg().Path()) == pkgShort
+	}
+	isBytes := func(t types.Type) bool {
+		sl, ok := t.Underlying().(*types.Slice)
+		if !ok {
+			return false
+		}
+		b, ok := sl.Elem().Underlying().(*types.Basic)
+		return ok && b.Kind() == types.Byte
+	}
+	aliasRet := map[*types.Func]bool{}
+	aliasOf := func(f *core.Func) func(e ast.Expr) bool {
+		info := f.Pkg.TypesInfo
+		local := map[types.Object]bool{}
+		var is func(e ast.Expr) bool
+		is = func(e ast.Expr) bool {
+			switch x := core.Unparen(e).(type) {
+			case *ast.Ident:
+				return local[info.ObjectOf(x)]
+			case *ast.SelectorExpr:
+				if t := info.TypeOf(x.X); t != nil && isSharedT(t) {
+					if v, ok := info.ObjectOf(x.Sel).(*types.Var); ok && v.IsField() && isBytes(v.Type()) {
+						return true
+					}
+				}
+				return false
+			case *ast.SliceExpr:
+				return is(x.X)
+			case *ast.CallExpr:
+				if fn := core.Callee(info, x); fn != nil && aliasRet[fn.Origin()] {
+					return true
+				}
+			}
+			return false
+		}
+		for changed := true; changed; {
+			changed = false
+			ast.Inspect(f.Body, func(n ast.Node) bool {
+				if l, ok := n.(*ast.FuncLit); ok && l != f.Lit {
+					return false
+				}
+				as, ok := n.(*ast.AssignStmt)
+				if !ok || len(as.Lhs) != len(as.Rhs) {
+					return true
+				}
+				for i, l := range as.Lhs {
+					if id, ok := l.(*ast.Ident); ok {
+						if o := info.ObjectOf(id); o != nil && !local[o] && isBytes(o.Type()) && is(as.Rhs[i]) {
+							local[o] = true
+							changed = true
+						}
+					}
+				}
+				return true
+			})
+		}
+		return is
+	}
+	returnsAlias := func(f *core.Func) ast.Node {
+		is := aliasOf(f)
+		var hit ast.Node
+		ast.Inspect(f.Body, func(n ast.Node) bool {
+			if l, ok := n.(*ast.FuncLit); ok && l != f.Lit {
+				return false
+			}
+			if rs, ok := n.(*ast.ReturnStmt); ok {
+				for _, e := range rs.Results {
+					if t := f.Pkg.TypesInfo.TypeOf(e); t != nil && isBytes(t) && is(e) && hit == nil {
+						hit = rs
+					}
+				}
+			}
+			return true
+		})
+		return hit
+	}
+	for changed := true; changed; {
+		changed = false
+		for _, f := range all {
+			if f.Obj != nil && !aliasRet[f.Obj] && returnsAlias(f) != nil {
+				aliasRet[f.Obj] = true
+				changed = true
+			}
+		}
+	}
+	n := 0
+	for _, f := range all {
+		escapes := f.Lit != nil || (f.Obj != nil && f.Obj.Exported())
+		if !escapes {
+			continue
+		}
+		hasBytesResult := false
+		if f.Type.Results != nil {
+			for _, fl := range f.Type.Results.List {
+				if t := f.Pkg.TypesInfo.TypeOf(fl.Type); t != nil && isBytes(t) {
+					hasBytesResult = true
+				}
+			}
+		}
+		if !hasBytesResult {
+			continue
+		}
+		n++
+		hit := returnsAlias(f)
+		k := fmt.Sprintf("%s#returns-no-alias-of-%s-buffer", f.Key, typeName)
+		if hit == nil {
+			r.OK(rule, k, posP(r, f.Pos()), "the bytes returned do not alias a buffer field of the shared "+typeName)
+		} else {
+			r.Violation(rule, k, pos(r, hit), "the returned bytes alias a buffer kept in a field of the shared "+typeName+": the next user of that buffer overwrites them while the first caller still reads them")
+		}
+	}
+	if n == 0 {
+		r.Undecided(rule, pkgShort+"#byte-returning-functions", "", "no exported function or closure returning bytes found in "+pkgShort)
+	}
+}
